@@ -2,31 +2,28 @@ import Driver.Util
 import GradysModel.Queue
 open Lean DU
 
+def elOpOfJson (op : Json) : Except String (ELOp Nat) := do
+  let a ← op.getArr?
+  let name ← a[0]!.getStr?
+  match name with
+  | "schedule" => pure (.schedule (← a[1]!.getInt?) (← a[2]!.getNat?))
+  | "pop" => pure .pop
+  | "peek" => pure .peek
+  | "clear" => pure .clear
+  | "len" => pure .len
+  | "now" => pure .now
+  | _ => throw s!"unknown EL op {name}"
+
+def jsonOfELOut : ELOp Nat → ELOut Nat → Json
+  | _, .ok => Json.str "ok"
+  | _, .err .past => Json.str "past"
+  | _, .err .empty => Json.str "empty"
+  | _, .ev (some e) => Json.arr #[toJson e.kind, toJson e.ts]
+  | _, .ev none => Json.null
+  | _, .num n => toJson n
+
 /-- bare `EventLoop` histories: ops are ["schedule", ts, id] | ["pop"] | ["peek"] | ["clear"] | ["len"] | ["now"] -/
 def runEL (j : Json) : Except String Json := do
-  let ops ← (← field j "ops").getArr?
-  let mut l : EL Nat := EL.empty
-  let mut out : Array Json := #[]
-  for op in ops do
-    let a ← op.getArr?
-    let name ← a[0]!.getStr?
-    match name with
-    | "schedule" =>
-      let ts ← a[1]!.getInt?
-      let id ← a[2]!.getNat?
-      match l.schedule ts id with
-      | .ok l' => l := l'; out := out.push (Json.str "ok")
-      | .error _ => out := out.push (Json.str "past")
-    | "pop" =>
-      match l.pop with
-      | .ok (e, l') => l := l'; out := out.push (Json.arr #[toJson e.kind, toJson e.ts])
-      | .error _ => out := out.push (Json.str "empty")
-    | "peek" =>
-      match l.peek with
-      | some e => out := out.push (Json.arr #[toJson e.kind, toJson e.ts])
-      | none => out := out.push Json.null
-    | "clear" => l := l.clear; out := out.push (Json.str "ok")
-    | "len" => out := out.push (toJson l.len)
-    | "now" => out := out.push (toJson l.now)
-    | _ => throw s!"unknown EL op {name}"
-  pure (Json.mkObj [("results", Json.arr out)])
+  let ops ← (← (← field j "ops").getArr?).toList.mapM elOpOfJson
+  let r := (EL.empty : EL Nat).run ops
+  pure (Json.mkObj [("results", Json.arr ((ops.zip r.2).map (fun p => jsonOfELOut p.1 p.2)).toArray)])
